@@ -647,6 +647,12 @@ def run(ctx: Ctx, rep: Report, tier: str) -> None:
     sub16 = Report("C19")
     blocks_keep_identity(ctx, sub16)
     rep.absorb(sub16, "R19.11")
+    # R19.12 the split entries are copies: what copy() carries is what data() exports - the note as it is (C16 R16.2)
+    from .c16 import r16_2
+
+    sub162 = Report("C19")
+    r16_2(ctx, sub162)
+    rep.absorb(sub162, "R19.12")
     r19_2(ctx, rep)
     r19_3(ctx, rep)
     splice_rule(ctx, rep, "AceGroup.ungroup_ports")
